@@ -73,6 +73,19 @@ CLAIMS["C10"] = dict(
     design_ref="DESIGN.md §3 C10",
 )
 
+CLAIMS["C09"] = dict(
+    technique="staged symbolic comparison of CIEDE2000 with the Sharma formula (let-matching by value); exact normal forms of the closed-form measures; metric laws on normal forms",
+    category="other",
+    text=("For all colour pairs over the reals: every published intermediate of CIEDE2000 (C-bar, G, a', C', h' with its zero and wrap "
+          "cases, the three-case delta-h', delta-H', mean hue, T, S_L, S_C, S_H, delta-theta, R_C, R_T) must occur in get_ciede2000_difference "
+          "as a `let` of equal value (matched by value, not by name) and the result must equal the final formula; LabColorDiff from Lab "
+          "and from Lch carry (l,a,b,chroma); Euclidean, HyAB, Delta E and the improved variants of every implementing type equal their closed "
+          "forms with Huang et al.'s coefficients, are symmetric and zero at identity as exact normal forms; polar impls go through the "
+          "rectangular form; WCAG contrast = (max+0.05)/(min+0.05), symmetric, with the five WCAG 2.1 thresholds. Does not decide the symmetry "
+          "of CIEDE2000 across its hue case split or the [1,21] range. The mean-hue wrap uses palette's documented +360-only form."),
+    design_ref="DESIGN.md §3 C09",
+)
+
 NOT_YET = "check under construction (see DESIGN.md §7 build order); will be claimed when its rule is armed"
 NA = {}
 
